@@ -917,13 +917,18 @@ package regexp2
 //@   modifies *
 //@   ensures[argerr] count < -1 ==> err != nil
 //@   loop 0:
+//@     invariant rtl == re.code.RightToLeft
 //@     invariant m != nil ==> ReturnedMatch(m, re.code.RightToLeft)
 //@     invariant txt != nil ==> (m != nil ==> txt == m.text.runes) && 0 <= priorIndex && priorIndex <= len(txt)
-//@     invariant txt == nil ==> priorIndex == 0
-//@     invariant !re.code.RightToLeft && m != nil && txt != nil ==> priorIndex <= m.RuneIndex
+//@     invariant txt == nil && !rtl ==> priorIndex == 0
+//@     invariant txt == nil && rtl && m != nil ==> priorIndex == len(m.text.runes)
+//@     invariant !rtl && m != nil && txt != nil ==> priorIndex <= m.RuneIndex
+//@     invariant rtl && m != nil && txt != nil ==> m.RuneIndex + m.RuneLength <= priorIndex
 //@     invariant m != nil ==> err == nil
 //@   loop 1:
-//@     invariant 1 <= i && i <= len(gs) && m != nil && ReturnedMatch(m, re.code.RightToLeft) && txt == m.text.runes && 0 <= priorIndex && (!re.code.RightToLeft ==> priorIndex <= m.RuneIndex)
+//@     invariant 1 <= i && i <= len(gs) && m != nil && ReturnedMatch(m, re.code.RightToLeft) && txt == m.text.runes && 0 <= priorIndex && priorIndex <= len(txt) && rtl == re.code.RightToLeft
+//@     invariant !rtl ==> priorIndex <= m.RuneIndex
+//@     invariant rtl ==> m.RuneIndex + m.RuneLength <= priorIndex
 //@     invariant forall k int :: 0 <= k && k < len(gs) ==> gs[k].text == m.text && 0 <= gs[k].RuneIndex && 0 <= gs[k].RuneLength && gs[k].RuneIndex + gs[k].RuneLength <= len(m.text.runes)
 
 // A compiled replacement: rule r >= 0 is a literal (index into Strings), r < -4 the group with slot -5-r, -4..-1 the
